@@ -273,22 +273,36 @@ func (_this *Reader) readSmallULEB128(name string, maxValue uint64) uint64 {
 }
 
 func (_this *Reader) readIntoBuffer(count int) {
-	_this.expandBufferTo(count)
-	dst := _this.buffer[:count]
-	for len(dst) > 0 {
-		if bytesRead, err := _this.reader.Read(dst); err != nil {
+	filled := 0
+	for filled < count {
+		if filled == len(_this.buffer) {
+			_this.growBufferToward(count)
+		}
+		end := count
+		if end > len(_this.buffer) {
+			end = len(_this.buffer)
+		}
+		if bytesRead, err := _this.reader.Read(_this.buffer[filled:end]); err != nil {
 			_this.unexpectedError(err)
 		} else {
 			_this.markBytesRead(bytesRead)
-			dst = dst[bytesRead:]
+			filled += bytesRead
 		}
 	}
 }
 
-func (_this *Reader) expandBufferTo(minSize int) {
-	if len(_this.buffer) < minSize {
-		_this.buffer = make([]byte, minSize*2)
+// Grow the (full) buffer toward wantedSize, at most doubling it and keeping
+// its contents. Because the buffer only grows as data actually arrives, a
+// length field in the document cannot make the decoder reserve more memory
+// than about twice the amount of data it was really sent.
+func (_this *Reader) growBufferToward(wantedSize int) {
+	newSize := len(_this.buffer) * 2
+	if newSize > wantedSize {
+		newSize = wantedSize
 	}
+	newBuffer := make([]byte, newSize)
+	copy(newBuffer, _this.buffer)
+	_this.buffer = newBuffer
 }
 
 func (_this *Reader) unexpectedError(err error) {
